@@ -7,285 +7,13 @@
 // Timestamps are never printed: a MetricData's end_ts is checked to lie inside the wall-clock bracket of the Collect call
 // that produced it and is then named by the script position of that call; a start_ts is named by looking it up among the
 // SDK start time (0) and the end timestamps seen so far (-1: a time the reader has never been shown).
-#include <algorithm>
-#include <atomic>
-#include <chrono>
-#include <cmath>
-#include <map>
-#include <memory>
-#include <string>
-#include <thread>
-#include <utility>
-#include <vector>
-
-#include "opentelemetry/common/key_value_iterable_view.h"
-#include "opentelemetry/metrics/sync_instruments.h"
-#include "opentelemetry/sdk/common/global_log_handler.h"
-#include "opentelemetry/sdk/metrics/meter_context.h"
-#include "opentelemetry/sdk/metrics/meter_provider.h"
-#include "opentelemetry/sdk/metrics/metric_reader.h"
-#include "opentelemetry/sdk/metrics/view/instrument_selector.h"
-#include "opentelemetry/sdk/metrics/view/meter_selector.h"
-#include "opentelemetry/sdk/metrics/view/view.h"
-#include "opentelemetry/sdk/metrics/view/view_registry.h"
-#include "common/verif_io.h"
-
-namespace nostd  = opentelemetry::nostd;
-namespace common = opentelemetry::common;
-namespace msdk   = opentelemetry::sdk::metrics;
-namespace mapi   = opentelemetry::metrics;
-using verif::Out;
-using verif::Tok;
-typedef std::vector<Tok> Toks;
-typedef std::vector<std::pair<std::string, std::string>> Key;
-
-class Reader : public msdk::MetricReader
-{
-public:
-  explicit Reader(msdk::AggregationTemporality t) : t_(t) {}
-  msdk::AggregationTemporality GetAggregationTemporality(msdk::InstrumentType) const noexcept override { return t_; }
-
-private:
-  bool OnForceFlush(std::chrono::microseconds) noexcept override { return true; }
-  bool OnShutDown(std::chrono::microseconds) noexcept override { return true; }
-  msdk::AggregationTemporality t_;
-};
-
-struct Handle
-{
-  int kind = -1;   // 0 uint64 counter, 1 double counter, 2 int64 up-down, 3 double up-down
-  nostd::unique_ptr<mapi::Counter<uint64_t>> lc;
-  nostd::unique_ptr<mapi::Counter<double>> dc;
-  nostd::unique_ptr<mapi::UpDownCounter<int64_t>> lu;
-  nostd::unique_ptr<mapi::UpDownCounter<double>> du;
-};
-
-struct AddOp
-{
-  size_t h = 0;
-  bool with_attrs = false;
-  Tok value;
-  std::vector<std::pair<std::string, std::string>> kv;
-};
-
-struct Point
-{
-  Key key;
-  bool bad = false;   // not a sum point / not an integer / not a string attribute
-  bool mono = false, dbl = false;
-  long long v = 0;
-};
-struct Stream
-{
-  long long meter = -1;
-  std::string name;
-  bool delta = false;
-  bool desc_mono = false, desc_dbl = false;   // from the MetricData's instrument descriptor
-  int64_t start_ns = 0, end_ns = 0;
-  std::vector<Point> pts;
-};
-
-struct Sdk
-{
-  msdk::MeterContext *ctx = nullptr;
-  std::shared_ptr<msdk::MeterProvider> provider;
-  std::vector<std::shared_ptr<Reader>> readers;
-  std::vector<bool> reader_delta;
-  std::vector<nostd::shared_ptr<mapi::Meter>> meters;
-  std::vector<std::unique_ptr<Handle>> handles;
-  int64_t start_ns = 0;
-};
-
-static bool setup(const Toks &readers, const Toks &views, const Toks &meters, Sdk &s)
-{
-  if (readers.empty() || readers.size() > 8) return false;
-  if (meters.size() != 1 || meters[0].kind != Tok::INT) return false;
-  long long nm = meters[0].as_ll();
-  if (nm < 1 || nm > 4) return false;
-  std::unique_ptr<msdk::ViewRegistry> reg(new msdk::ViewRegistry());
-  if (!views.empty())
-    for (auto &v : verif::split_toks(views, ";"))
-    {
-      // V <counter 0/1> <x<name> | ANY> <meter | -1> x<stream name>
-      if (v.size() != 5 || !v[0].is_tag("V") || v[1].kind != Tok::INT || v[3].kind != Tok::INT || v[4].kind != Tok::BYTES) return false;
-      std::string pat;
-      if (v[2].kind == Tok::BYTES) pat = v[2].s;
-      else if (v[2].is_tag("ANY")) pat = "*";
-      else return false;
-      long long m = v[3].as_ll();
-      if (m >= nm) return false;
-      std::string mname = m < 0 ? std::string() : "m" + std::to_string(m);
-      auto type = v[1].as_ll() == 1 ? msdk::InstrumentType::kCounter : msdk::InstrumentType::kUpDownCounter;
-      std::unique_ptr<msdk::InstrumentSelector> is(new msdk::InstrumentSelector(type, pat, ""));
-      std::unique_ptr<msdk::MeterSelector> ms(new msdk::MeterSelector(mname, "", ""));
-      std::unique_ptr<msdk::View> view(new msdk::View(v[4].s));
-      reg->AddView(std::move(is), std::move(ms), std::move(view));
-    }
-  std::unique_ptr<msdk::MeterContext> ctx(new msdk::MeterContext(std::move(reg)));
-  s.ctx      = ctx.get();
-  s.start_ns = s.ctx->GetSDKStartTime().time_since_epoch().count();
-  s.provider = std::make_shared<msdk::MeterProvider>(std::move(ctx));
-  for (auto &r : readers)
-  {
-    if (r.kind != Tok::INT || (r.as_ll() != 0 && r.as_ll() != 1)) return false;
-    bool delta = r.as_ll() == 0;
-    s.readers.emplace_back(new Reader(delta ? msdk::AggregationTemporality::kDelta : msdk::AggregationTemporality::kCumulative));
-    s.reader_delta.push_back(delta);
-    s.provider->AddMetricReader(s.readers.back());
-  }
-  for (long long m = 0; m < nm; m++) s.meters.push_back(s.provider->GetMeter("m" + std::to_string(m)));
-  return true;
-}
-
-static bool do_new(Sdk &s, const Toks &op)
-{
-  if (op.size() != 4 || !op[0].is_tag("N") || op[1].kind != Tok::INT || op[2].kind != Tok::INT || op[3].kind != Tok::BYTES) return false;
-  long long m = op[1].as_ll(), k = op[2].as_ll();
-  if (m < 0 || m >= (long long)s.meters.size() || k < 0 || k > 3) return false;
-  std::unique_ptr<Handle> h(new Handle());
-  h->kind = int(k);
-  nostd::string_view name(op[3].s.data(), op[3].s.size());
-  switch (k)
-  {
-    case 0: h->lc = s.meters[m]->CreateUInt64Counter(name, "", ""); break;
-    case 1: h->dc = s.meters[m]->CreateDoubleCounter(name, "", ""); break;
-    case 2: h->lu = s.meters[m]->CreateInt64UpDownCounter(name, "", ""); break;
-    default: h->du = s.meters[m]->CreateDoubleUpDownCounter(name, "", ""); break;
-  }
-  s.handles.push_back(std::move(h));
-  return true;
-}
-
-// A <handle> <value>   |   K <handle> <value> (x<key> x<value>)*
-static bool parse_add(const Toks &op, size_t from, AddOp &a)
-{
-  if (op.size() < from + 3 || op[from + 1].kind != Tok::INT || op[from + 2].kind != Tok::INT) return false;
-  if (op[from + 1].as_ll() < 0) return false;
-  a.h     = size_t(op[from + 1].as_ll());
-  a.value = op[from + 2];
-  if (op[from].is_tag("A")) { a.with_attrs = false; return op.size() == from + 3; }
-  if (!op[from].is_tag("K")) return false;
-  a.with_attrs = true;
-  if ((op.size() - from - 3) % 2 != 0) return false;
-  for (size_t i = from + 3; i + 1 < op.size(); i += 2)
-  {
-    if (op[i].kind != Tok::BYTES || op[i + 1].kind != Tok::BYTES) return false;
-    a.kv.emplace_back(op[i].s, op[i + 1].s);
-  }
-  return true;
-}
-
-static bool do_add(Sdk &s, const AddOp &a)
-{
-  if (a.h >= s.handles.size()) return false;
-  Handle &h = *s.handles[a.h];
-  std::vector<std::pair<nostd::string_view, common::AttributeValue>> kv;
-  for (auto &p : a.kv)
-    kv.emplace_back(nostd::string_view(p.first.data(), p.first.size()),
-                    common::AttributeValue(nostd::string_view(p.second.data(), p.second.size())));
-  common::KeyValueIterableView<std::vector<std::pair<nostd::string_view, common::AttributeValue>>> attrs(kv);
-  // all four overloads of Add are driven: with/without attributes as the script says, with an explicit Context for odd values
-  opentelemetry::context::Context ctx{};
-  bool with_ctx = !a.value.s.empty() && ((a.value.s.back() - '0') % 2 == 1);
-  switch (h.kind)
-  {
-    case 0:
-    {
-      uint64_t v = a.value.as_ull();
-      if (a.with_attrs) { if (with_ctx) h.lc->Add(v, attrs, ctx); else h.lc->Add(v, attrs); }
-      else { if (with_ctx) h.lc->Add(v, ctx); else h.lc->Add(v); }
-      break;
-    }
-    case 1:
-    {
-      double v = double(a.value.as_ll());
-      if (a.with_attrs) { if (with_ctx) h.dc->Add(v, attrs, ctx); else h.dc->Add(v, attrs); }
-      else { if (with_ctx) h.dc->Add(v, ctx); else h.dc->Add(v); }
-      break;
-    }
-    case 2:
-    {
-      int64_t v = a.value.as_ll();
-      if (a.with_attrs) { if (with_ctx) h.lu->Add(v, attrs, ctx); else h.lu->Add(v, attrs); }
-      else { if (with_ctx) h.lu->Add(v, ctx); else h.lu->Add(v); }
-      break;
-    }
-    default:
-    {
-      double v = double(a.value.as_ll());
-      if (a.with_attrs) { if (with_ctx) h.du->Add(v, attrs, ctx); else h.du->Add(v, attrs); }
-      else { if (with_ctx) h.du->Add(v, ctx); else h.du->Add(v); }
-      break;
-    }
-  }
-  return true;
-}
-
-static long long meter_index(const std::string &scope_name)
-{
-  if (scope_name.size() == 2 && scope_name[0] == 'm' && scope_name[1] >= '0' && scope_name[1] <= '9') return scope_name[1] - '0';
-  return -1;
-}
-
-static std::vector<Stream> collect(Sdk &s, size_t r)
-{
-  std::vector<Stream> out;
-  s.readers[r]->Collect([&](msdk::ResourceMetrics &rm) {
-    for (auto &sm : rm.scope_metric_data_)
-      for (auto &md : sm.metric_data_)
-      {
-        Stream st;
-        st.meter    = meter_index(sm.scope_->GetName());
-        st.name     = md.instrument_descriptor.name_;
-        st.delta    = md.aggregation_temporality == msdk::AggregationTemporality::kDelta;
-        st.desc_mono = md.instrument_descriptor.type_ == msdk::InstrumentType::kCounter;
-        st.desc_dbl  = md.instrument_descriptor.value_type_ == msdk::InstrumentValueType::kDouble;
-        st.start_ns = md.start_ts.time_since_epoch().count();
-        st.end_ns   = md.end_ts.time_since_epoch().count();
-        for (auto &p : md.point_data_attr_)
-        {
-          Point pt;
-          for (auto &kv : p.attributes)
-          {
-            if (nostd::holds_alternative<std::string>(kv.second)) pt.key.emplace_back(kv.first, nostd::get<std::string>(kv.second));
-            else pt.bad = true;
-          }
-          if (nostd::holds_alternative<msdk::SumPointData>(p.point_data))
-          {
-            auto &sp = nostd::get<msdk::SumPointData>(p.point_data);
-            pt.mono  = sp.is_monotonic_;
-            if (nostd::holds_alternative<int64_t>(sp.value_)) pt.v = nostd::get<int64_t>(sp.value_);
-            else
-            {
-              double d = nostd::get<double>(sp.value_);
-              pt.dbl   = true;
-              if (d == std::floor(d) && std::fabs(d) < 9.0e18) pt.v = (long long)d;
-              else pt.bad = true;
-            }
-          }
-          else pt.bad = true;
-          st.pts.push_back(std::move(pt));
-        }
-        std::sort(st.pts.begin(), st.pts.end(), [](const Point &a, const Point &b) { return a.key < b.key; });
-        out.push_back(std::move(st));
-      }
-    return true;
-  });
-  std::sort(out.begin(), out.end(), [](const Stream &a, const Stream &b) {
-    return a.meter != b.meter ? a.meter < b.meter : a.name < b.name;
-  });
-  return out;
-}
+#include "c06_common.h"
 
 static int64_t now_ns()
 {
   return std::chrono::duration_cast<std::chrono::nanoseconds>(std::chrono::system_clock::now().time_since_epoch()).count();
 }
 
-static void print_key(Out &o, const Key &k)
-{
-  for (auto &kv : k) { o.bytes(kv.first); o.bytes(kv.second); }
-}
 
 // ------------------------------------------------------------------------------------------------ SEQ
 static void run_seq(const Toks &t, Out &o)
